@@ -33,7 +33,8 @@ def child_xml(p, cid):
         <state id="a">
           <onentry><log label="hello" expr="me"/><send event="go" delay="%(Tc)dms"/>%(fin)s</onentry>
           <transition event="go" cond="i &lt; %(NC)d"><assign location="i" expr="i + 1"/>
-            <send target="#_parent" event="c"><param name="n" expr="i"/></send><send event="go" delay="%(Tc)dms"/></transition>
+            <send target="#_parent" event="c"><param name="n" expr="i"/></send>
+            <if cond="i == 2"><send target="#_parent" event="q"><param name="n" expr="4242"/></send></if><send event="go" delay="%(Tc)dms"/></transition>
           <transition event="p"><log label="cp" expr="me .. ' ' .. _event.data.n"/></transition>
           <transition event="fwd"><log label="cf" expr="me .. ' ' .. _event.name"/></transition>
           <transition event="finish" target="cfin"/>
@@ -64,6 +65,7 @@ def parent_xml(p):
     <onentry><assign location="visits" expr="visits + 1"/><assign location="k" expr="0"/>%(flash)s%(leave)s<if cond="bounced == 0">%(bounce)s</if><send event="tick" delay="%(T)dms"/></onentry>
     %(inv)s
     <transition event="flash" target="s1"/>
+    <transition cond="fin == 4242"><log label="EAF" expr="fin"/><assign location="fin" expr="0"/></transition>
     <transition event="bounce" target="s0"><assign location="bounced" expr="1"/></transition>
     <transition event="c" cond="fin == _event.data.n"><log label="pc" expr="_event.invokeid .. ' ' .. _event.data.n"/></transition>
     <transition event="c"><log label="FINALIZE-LATE" expr="_event.invokeid .. ' ' .. _event.data.n"/></transition>
@@ -79,18 +81,20 @@ def parent_xml(p):
     <transition event="done.invoke"><log label="pd" expr="_event.name"/></transition>
     <transition event="again" target="s0"/>
   </state>
-</scxml>''' % {'inv': inv, 'leave': leave, 'flash': flash, 'again': again, 'ondone': ondone, 'T': p['T'], 'NP': p['NP'], 'to': kids[0], 'bounce': bounce,
+</scxml>''' % {'inv': inv, 'leave': leave, 'flash': flash, 'again': again, 'ondone': ondone, 'T': p['T'], 'NP': p['NP'], 'to': p.get('to', kids[0]), 'bounce': bounce,
        's0kind': 'parallel' if p.get('par') else 'state', 'leaveto': 'pfin' if p.get('final_on_leave') else 's1'}
 
 
 def gen_params(rng):
-    kids = ['c1'] if rng.random() < 0.6 else ['c1', 'c2']
+    # the second child is sometimes called 'Parent': '#_Parent' addresses that invocation, only the lower-case '#_parent' is the special term
+    kids = ['c1'] if rng.random() < 0.6 else ['c1', rng.choice(['c2', 'c2', 'Parent'])]
     p = {'kids': kids, 'Tc': rng.choice([1, 2, 5, 11]), 'T': rng.choice([1, 3, 7]), 'NC': rng.choice([3, 8, 20]), 'NP': rng.choice([3, 8, 20]),
          'Dc': {c: rng.choice([None, None, 0, 3, 15, 40, 80]) for c in kids},
          'Dp': rng.choice([None, None, 0, 2, 15, 40, 80]), 'af': rng.random() < 0.5, 'flash': rng.random() < 0.25,
          'revisit': rng.choice([0, 0, 1, 2]), 'Da': rng.choice([1, 5, 20]), 'leave_on_done': rng.random() < 0.4,
          'fwd': rng.choice([0, 10, 30]), 'fwdms': rng.choice([1, 3, 7])}
     if p['Dp'] is None and not p['leave_on_done']: p['revisit'] = 0
+    p['to'] = rng.choice(kids)                                # the child the parent's p events are addressed to
     p['par'] = len(kids) == 2 and rng.random() < 0.5          # one invoking region per child
     p['Db'] = rng.choice([None, None, 1, 10, 30])             # the invoking state is left and re-entered by one transition after Db ms
     p['final_on_leave'] = p['Dp'] is not None and rng.random() < 0.3   # leaving the invoking state ends the parent (top-level final)
@@ -123,13 +127,18 @@ def analyse(recs, p):
     par = [r for r in recs if r[2] == 'stepper']
     # --- invocations: per id list of dicts(ib, ia, ub, ua) from the parent's records
     invs = collections.defaultdict(list)
-    active = False; invoked = {c: False for c in kids}; ended = False; pending_cancel = set()
+    active = False; invoked = {c: False for c in kids}; ended = False; pending_cancel = set(); expect_eaf = None
     for r in par:
         k, a = r[3], r[4].split(' ')
         if k == 'NB' and a[0] == psid and a[1] == 's0': active = True
         elif k == 'XB' and a[0] == psid and a[1] == 's0':
             active = False
             pending_cancel |= set(c for c in kids if invoked[c])     # exiting the state must cancel what runs, also when the state is re-entered at once
+        elif k == 'E' and a[0] == psid:
+            if expect_eaf is not None: bad.append(('eventless-transition-not-re-examined-after-finalize', {'event_seq': expect_eaf})); expect_eaf = None
+            # q matches no transition; <finalize> has just set fin = 4242, which enables the eventless transition of s0
+            if a[1] == 'q' and active and invoked.get(a[3]): expect_eaf = r[0]
+        elif k == 'L' and a[0].startswith('EAF'): expect_eaf = None
         elif k == 'KA' and a[0] == psid:
             for c in kids:
                 if invoked[c]: bad.append(('parent-finished-but-invoke-not-cancelled', {'id': c, 'seq': r[0]}))
@@ -146,6 +155,7 @@ def analyse(recs, p):
             invoked[c] = False; pending_cancel.discard(c)
         elif k == 'UA' and a[0] == psid and invs[a[1]]: invs[a[1]][-1]['ua'] = r[0]
         elif k == 'S' and a[0] == psid:
+            if expect_eaf is not None: bad.append(('eventless-transition-not-re-examined-after-finalize', {'event_seq': expect_eaf})); expect_eaf = None
             for c in kids:
                 if active and not invoked[c]: bad.append(('macrostep-ended-with-state-active-but-invoke-not-started', {'id': c, 'seq': r[0]}))
                 if c in pending_cancel: bad.append(('state-exited-but-invoke-not-cancelled', {'id': c, 'seq': r[0], 'state_active_again': active}))
@@ -237,13 +247,13 @@ def analyse(recs, p):
                 sent = sum(1 for r in by_thread[iv['thread']] if r[3] == 'CA' and ' send c' in r[4] and r[0] < endseq)
                 mine = [n for s, n in got if s > iv['ib'] and n != BYE]
                 if len(mine) < sent: bad.append(('child-to-parent-event-lost', {'id': c, 'sent': sent, 'received': len(mine)}))
-    # parent -> child (#_c1): the first child only; others must never see p
+    # parent -> child (#_<id>): the addressed child only; others must never see p
     for t, (c, iv) in thread_of.items():
         cps = [int(r[4].split(' ')[2]) for r in by_thread[t] if r[3] == 'L' and r[4].startswith('cp: ')]
         stats['p_events'] += len(cps)
-        if c != kids[0] and cps: bad.append(('event-delivered-to-wrong-session', {'id': c, 'observed': cps[:10]}))
+        if c != p.get('to', kids[0]) and cps: bad.append(('event-delivered-to-wrong-session', {'id': c, 'observed': cps[:10]}))
         if cps != list(range(1, len(cps) + 1)): bad.append(('parent-to-child-events-out-of-order-or-duplicated', {'id': c, 'observed': cps[:40]}))
-        if c == kids[0] and complete() and not iv['finished'] and not iv['cancelled']:
+        if c == p.get('to', kids[0]) and complete() and not iv['finished'] and not iv['cancelled']:
             sent = sum(1 for r in par if r[3] == 'CA' and r[4].split(' ')[0] == psid and ' send p' in r[4] and r[0] > iv['ib'])
             if len(cps) < sent: bad.append(('parent-to-child-event-lost', {'sent': sent, 'received': len(cps)}))
         # autoforward: the fwd.* events the parent processed while this invocation was active, in that order, exactly once
